@@ -959,3 +959,16 @@ impl<B: Buf> fmt::Debug for Prioritized<B> {
             .finish()
     }
 }
+
+#[cfg(feature = "h2_verif")]
+impl Prioritize {
+    /// Read-only statistics for the verification harness (JSON object body).
+    pub(super) fn verif_json(&self) -> String {
+        format!(
+            "\"send_window\":{},\"send_available\":{},\"max_buffer_size\":{}",
+            self.flow.window_size(),
+            isize::from(self.flow.available()),
+            self.max_buffer_size,
+        )
+    }
+}
